@@ -19,6 +19,18 @@ class AstToSqlVisitor(visitor.NodeVisitor):
         super().__init__()
         self.table_alias = table_alias
 
+    def generic_visit(self, node: ast._Node) -> str:
+        """
+        Reached for node types this visitor has no SQL translation for (e.g.
+        navigation paths and collection lambdas). Refuse them instead of silently
+        rendering ``None`` into the query.
+
+        :meta private:
+        """
+        raise exceptions.TypeException(
+            self.__class__.__name__, node.__class__.__name__
+        )
+
     def visit_Identifier(self, node: ast.Identifier) -> str:
         ":meta private:"
         # Double quotes for column names acc SQL Standard
